@@ -20,6 +20,18 @@ type LogSchema struct {
 	OnLocated  func(index int) // optional callback invoked after successful CreateFieldLocator calls
 }
 
+// VerifyMetricKeyName checks that a field name can be part of a metric label name ("key_<name>"), as needed for
+// orchestration keys and metric keys
+func VerifyMetricKeyName(name string) error {
+	for i := 0; i < len(name); i++ {
+		c := name[i]
+		if !(c >= 'a' && c <= 'z' || c >= 'A' && c <= 'Z' || c >= '0' && c <= '9' || c == '_') {
+			return fmt.Errorf("field '%s' cannot be used as metric label: only letters, digits and '_' are allowed", name)
+		}
+	}
+	return nil
+}
+
 // MustNewLogSchema creates a new LogSchema or panic.
 func MustNewLogSchema(fieldNames []string) LogSchema {
 	schema, err := NewLogSchema(fieldNames, len(fieldNames))
